@@ -157,8 +157,12 @@ func c18Play(c *fw.Ctx, layer string, hist []c18Op, dir string) (state string, o
 	}
 	checkAll := func(after string) bool {
 		if layer == "storage" {
+			handed := map[string][]byte{} // what Get handed out: it belongs to the caller and stays what it was
 			for _, k := range c18Keys {
 				got, err := st.Get(k)
+				if err == nil {
+					handed[k] = got
+				}
 				want, present := model[k]
 				switch {
 				case present && err != nil:
@@ -175,6 +179,12 @@ func c18Play(c *fw.Ctx, layer string, hist []c18Op, dir string) (state string, o
 					return false
 				case !present && err == nil:
 					fail("get-ghost/after-"+after, fmt.Sprintf("Get(%q) succeeds with %d bytes although the key is not live", k, len(got)))
+					return false
+				}
+			}
+			for k, got := range handed {
+				if want, present := model[k]; present && !bytes.Equal(got, want) {
+					fail("get-result-changed-later/after-"+after, fmt.Sprintf("the value Get(%q) returned was right when it was returned and has changed since other keys were read: now %d bytes %q…", k, len(got), trunc(got, 24)))
 					return false
 				}
 			}
@@ -449,7 +459,7 @@ func init() {
 	fw.Register(&fw.Check{
 		ID:     "C18",
 		Level:  "model_checking",
-		Rule:   "explicit-state breadth-first search over the real file storage and pairing database: alphabet Set(k,v) for 3 keys (thorough 4; one looks like an entity file, one is another key plus .tmp) × 5 values (lengths 0,1,3,6,4096), Get, Delete, KeysWithSuffix × 3 suffixes, reopen; SaveEntity (3 key lengths) / EntityWithName / DeleteEntity / Entities / reopen for 9 entity names (ASCII, empty, non-ASCII, with slash, with colon, 100 arbitrary bytes, invalid UTF-8 ending in 0xfe and in 0xee, a name ending in '.entity'). State = exact directory content (file names and bytes); every operation is executed in every discovered state by replaying the state's shortest history on a fresh directory; after every step all keys, listings and entities are compared with a Go map. Because that merging is sound only if the storage object holds nothing but the path, EVERY history of length 3 (thorough 4) over a reduced alphabet (2 keys × 4 values, get, delete, listing, reopen; 3 entity names) is additionally replayed without merging. distinct_nontrivial = distinct (layer, operation) classes executed Added: the searches repeated in storage directories named 'Lamp [Kitchen]', 'a*b', 'what?', '[a-', 'back\\slash', '{x,y}', 'per%cent', ' lead and trail '; writes cut short by the operating system (RLIMIT_FSIZE) for Set and SaveEntity — success only with the complete value, failure leaves the previous one; a storage BFS over two keys that differ only in letter case; entity names \"A\" (next to \"a\") and a 124-byte name. Plus, in a subprocess built with a scheduling point before EVERY statement of hc's packages (textual insertion through go build -overlay): every interleaving with at most 1 (thorough 2) preemptions of pairs of operations on disjoint objects — and, where the property is about served requests, of pairs of handlers on two verified connections of one accessory touching different characteristics — each side must observe exactly what it observes when the two run one after the other (module-level mutable state is what makes them differ). Also one key with 8 value shapes (line breaks, blanks, NUL, 0xff at either end, nothing but line breaks) to depth 3, and public keys whose base64 text consists of hexadecimal digits only.",
+		Rule:   "explicit-state breadth-first search over the real file storage and pairing database: alphabet Set(k,v) for 3 keys (thorough 4; one looks like an entity file, one is another key plus .tmp) × 5 values (lengths 0,1,3,6,4096), Get, Delete, KeysWithSuffix × 3 suffixes, reopen; SaveEntity (3 key lengths) / EntityWithName / DeleteEntity / Entities / reopen for 9 entity names (ASCII, empty, non-ASCII, with slash, with colon, 100 arbitrary bytes, invalid UTF-8 ending in 0xfe and in 0xee, a name ending in '.entity'). State = exact directory content (file names and bytes); every operation is executed in every discovered state by replaying the state's shortest history on a fresh directory; after every step all keys, listings and entities are compared with a Go map. Because that merging is sound only if the storage object holds nothing but the path, EVERY history of length 3 (thorough 4) over a reduced alphabet (2 keys × 4 values, get, delete, listing, reopen; 3 entity names) is additionally replayed without merging. distinct_nontrivial = distinct (layer, operation) classes executed Added: the searches repeated in storage directories named 'Lamp [Kitchen]', 'a*b', 'what?', '[a-', 'back\\slash', '{x,y}', 'per%cent', ' lead and trail '; writes cut short by the operating system (RLIMIT_FSIZE) for Set and SaveEntity — success only with the complete value, failure leaves the previous one; a storage BFS over two keys that differ only in letter case; entity names \"A\" (next to \"a\") and a 124-byte name. Plus, in a subprocess built with a scheduling point before EVERY statement of hc's packages (textual insertion through go build -overlay): every interleaving with at most 1 (thorough 2) preemptions of pairs of operations on disjoint objects — and, where the property is about served requests, of pairs of handlers on two verified connections of one accessory touching different characteristics — each side must observe exactly what it observes when the two run one after the other (module-level mutable state is what makes them differ). Also one key with 8 value shapes (line breaks, blanks, NUL, 0xff at either end, nothing but line breaks) to depth 3, and public keys whose base64 text consists of hexadecimal digits only; what Get returned stays what it was while other keys are read.",
 		Shards: func(string) int { return 16 },
 		Run:    c18Run,
 		Replay: func(c *fw.Ctx, raw json.RawMessage) {
